@@ -228,7 +228,9 @@ static std::string gen_text(Tape &t, Result &r) {
   return s;
 }
 
-static const std::string FNAMES[] = {"m", "a", "b", std::string("m\0x", 3), "dir/x.theo"};
+static const std::string FNAMES[] = {"m", "a", "b", std::string("m\0x", 3), "dir/x.theo", "./a"};
+// byte sequences editors and shells put at the start of a file; to the scanner they are ordinary bytes
+static const std::string FILE_PREFIXES[] = {"\xEF\xBB\xBF", "\xFF\xFE", "\xFE\xFF", "#!", "\r\n", std::string("\0", 1)};
 
 static void gen_files(Tape &t, Result &r, Files &files, std::string &main) {
   int nfiles = 1 + (int)t.weighted({5, 3, 2, 1});
@@ -241,9 +243,9 @@ static void gen_files(Tape &t, Result &r, Files &files, std::string &main) {
           static const char *inc[] = {"include", "INCLUDE", "Include"};
           body += inc[t.pick(3)];
           switch (t.weighted({6, 1, 1, 1})) {
-            case 0: body += " \""; body += FNAMES[t.pick(5)]; body += "\" "; break;
-            case 1: body += "\""; body += FNAMES[t.pick(5)]; body += "\""; break;
-            case 2: body += "\n\n\""; body += FNAMES[t.pick(5)]; body += "\"\n"; break;
+            case 0: body += " \""; body += FNAMES[t.pick(6)]; body += "\" "; break;
+            case 1: body += "\""; body += FNAMES[t.pick(6)]; body += "\""; break;
+            case 2: body += "\n\n\""; body += FNAMES[t.pick(6)]; body += "\"\n"; break;
             case 3: body += " "; break;  // malformed or glued to the next text
           }
         }
@@ -257,12 +259,21 @@ static void gen_files(Tape &t, Result &r, Files &files, std::string &main) {
       body += inc[t.pick(3)];
       if (t.chance(1, 2)) {
         body += " \"";
-        body += FNAMES[t.pick(5)];
+        body += FNAMES[t.pick(6)];
         body += "\"";
       }
       r.cls("file-ends-in-directive");
     }
+    if (t.chance(1, 12)) {
+      body = FILE_PREFIXES[t.pick(6)] + body;
+      r.cls("file-starts-with-BOM-like-bytes");
+    }
     files[FNAMES[i]] = body;
+  }
+  // "a" and "./a" are two different names
+  if (nfiles >= 2 && t.chance(1, 5)) {
+    files["./a"] = gen_text(t, r);
+    r.cls("names-a-and-./a");
   }
   main = t.chance(1, 20) ? "nomain" : "m";
 }
@@ -392,7 +403,7 @@ static void judge_c15(const Files &files, const std::string &main, bool through_
   std::set<std::string> want;
   bool cyc = false, missing = false, malformed = false;
   for (auto &e : ro.errs) {
-    if (!e.request.empty()) want.insert(e.request);
+    if (e.type == "FILE_NOT_FOUND" || e.type == "MAIN_FILE_NOT_FOUND") want.insert(e.request);  // also the empty name
     if (e.type == "RECURSIVE_INCLUDE") cyc = true;
     if (e.type == "FILE_NOT_FOUND" || e.type == "MAIN_FILE_NOT_FOUND") missing = true;
     if (e.type == "EXPECTED_FILENAME") malformed = true;
@@ -498,7 +509,12 @@ static void prop_c15(Tape &t, Result &r) {
     for (int k = 0; k < nd; k++) {
       switch (t.weighted({10, 2, 1, 1})) {
         case 0: b += "include \"" + names[t.pick((unsigned)nfiles)] + "\" "; break;
-        case 1: b += "include \"absent" + std::to_string(t.pick(3)) + "\" "; break;
+        case 1: {  // an absent file; its name may be the empty string
+          unsigned k = t.pick(4);
+          b += k == 3 ? std::string("include \"\" ") : "include \"absent" + std::to_string(k) + "\" ";
+          if (k == 3) r.cls("absent-file-with-empty-name");
+          break;
+        }
         case 2: b += "include "; break;
         case 3: b += "INCLUDE\n\"" + names[t.pick((unsigned)nfiles)] + "\"\n"; break;
       }
@@ -510,7 +526,7 @@ static void prop_c15(Tape &t, Result &r) {
     }
     files[names[(size_t)f]] = b;
   }
-  std::string main = t.chance(1, 12) ? "absentmain" : names[0];
+  std::string main = t.chance(1, 12) ? (t.chance(1, 3) ? "" : "absentmain") : names[0];
   judge_c15(files, main, t.chance(1, 3), r);
 }
 
